@@ -18,6 +18,10 @@ CHECK = {
     "parts": [
         {"name": "mem", "pkg": "websocket", "run": "^TestVerif_C13_Mem$", "race": True, "env": RACE_ENV,
          "timeout": {"quick": 900, "thorough": 7200}},
+        # AddressSanitizer build of the same in-memory workload (quick-sized), thorough tier only: the only unsafe code in
+        # scope is the word-wise masking in mask.go; the harness canaries cover what red zones miss
+        {"name": "asan", "pkg": "websocket", "run": "^TestVerif_C13_Mem$", "asan": True, "env": {"VERIF_TIER": "quick"},
+         "tiers": ("thorough",), "timeout": {"thorough": 3600}},
         {"name": "loopback", "pkg": "verifharness/prop/c13", "run": "^TestVerif_C13_Loopback$", "race": True, "env": RACE_ENV,
          "timeout": {"quick": 600, "thorough": 3600}},
     ],
